@@ -74,10 +74,24 @@ def finish(meta, name, patch, demo, notes):
         return 1
     d = os.path.join(V, 'seeded', name)
     os.makedirs(d, exist_ok=True)
-    shutil.copy(patch, os.path.join(d, 'patch.diff'))
-    shutil.copy(demo, os.path.join(d, 'demo_test.go.txt'))
+    if os.path.abspath(patch) != os.path.join(d, 'patch.diff'):
+        shutil.copy(patch, os.path.join(d, 'patch.diff'))
+    if os.path.abspath(demo) != os.path.join(d, 'demo_test.go.txt') and not os.environ.get('SEED_EVAL_MERGE'):
+        shutil.copy(demo, os.path.join(d, 'demo_test.go.txt'))
     meta['what_it_needs_to_manifest'] = open(notes).read().strip()
-    json.dump(meta, open(os.path.join(d, 'meta.json'), 'w'), indent=1)
+    old_p = os.path.join(d, 'meta.json')
+    if os.environ.get('SEED_EVAL_MERGE') and os.path.exists(old_p):
+        # a later re-run of some checks with newer machinery: merged into the existing matrix row
+        old = json.load(open(old_p))
+        merged = dict(old.get('checks', {}))
+        for c, r in meta.get('checks', {}).items():
+            r['rerun_at_verif_commit'] = sh('git -C %s rev-parse --short HEAD' % V)[1].strip()
+            merged[c] = r
+        meta['checks'] = dict(sorted(merged.items()))
+        meta['caught_by'] = [c for c, r in meta['checks'].items() if r['violation']]
+        meta['inconclusive_in'] = [c for c, r in meta['checks'].items() if r['exit'] == 2]
+        meta['ran'] = old.get('ran', meta.get('ran'))
+    json.dump(meta, open(old_p, 'w'), indent=1)
     print(name, 'caught by', meta.get('caught_by'), 'inconclusive in', meta.get('inconclusive_in'))
     return 0
 
